@@ -43,6 +43,19 @@
   PartialTracesSum: alias soundness and independence from buffers/receiver for EVERY n ≥ 1 (loop invariant of
   the log n + HW(n) tree in Proofs/StorePTS.lean).
 
+  Metadata: `initBinaryMeta` / `initUnaryMeta` (InitOutputBinaryOp / InitOutputUnaryOp) write IsNTT, IsBatched and the two
+  components of LogDimensions of the receiver field by field; every binary `Op` executes them before its arithmetic
+  (`Op.prog = metaProg ++ valueProg`), and the `alias` tie compares these fields too (`Op.outFields`); the harness
+  runs the alias patterns with operands whose LogDimensions differ, in both orders.  `alias_sound_meta`: aliased =
+  fresh for the metadata component of every such operation.
+
+  Harness only (no model counterpart; harness/c09_naming.go): `alias_naming/…` — the receiver named as the SAME object
+  through `x.El()` / an rlwe.ElementInterface must be refused or give the fresh-output result; `output_independent/…` —
+  the output of every catalogue operation (incl. rotation by 0, galEl = 1, scalars 0/1, nothing-to-do rescalings, the
+  …New forms) shares no polynomial storage and no MetaData struct with an input.  A SECOND HEADER over the same storage
+  (`&rlwe.Ciphertext{Element: *x.El()}`) is another object: the pointer comparisons this model transcribes cannot see
+  it, the products then read what they overwrite (statistics `second_header_*` only; fixes/not-applied/C09-8).
+
   Not modelled: coefficient-level aliasing inside one ring operation (the ring kernels are coefficient-wise or
   buffer their input, property C01); degrees ≥ 3; the CONTENT of the limbs a level change drops or appends
   (`ring.Poly.Resize`: truncation / fresh zero limbs — probes only); bgv.matchScaleThenEvaluateInPlace and
@@ -51,6 +64,7 @@
 import Lattigo.Proofs.StoreInt
 import Lattigo.Proofs.StorePTS
 import Lattigo.Proofs.StoreShape
+import Lattigo.Proofs.StoreMeta
 
 namespace Lattigo.Props.C09
 open Lattigo.Store
@@ -238,6 +252,28 @@ theorem add_history_counterexample :
     addIntoOld (0 : Int) (· + ·) [1, 2] [10, 20] [7, 8, 9] = [11, 22, 9] ∧
     addIntoOld (0 : Int) (· + ·) [1, 2] [10, 20] [0, 0] = [11, 22] := addIntoOld_degree_residue_counterexample
 
+/-! ### metadata under aliasing -/
+
+/-- InitOutputBinaryOp: under every aliasing pattern the receiver's IsNTT, IsBatched, LogDimensions.Rows/Cols are
+    `metaF` (IsNTT, IsBatched of op0; componentwise maximum of the operands' dimensions BEFORE the call), and
+    nothing but these four fields of the receiver is written. -/
+theorem alias_sound_meta_init (I : Interp α) (hcopy : ∀ x, I.fn .copy [x] = x) (al : Alias) (σ : Store α) :
+    type_of% (initBinaryMeta_alias_sound I hcopy al σ) := initBinaryMeta_alias_sound I hcopy al σ
+
+/-- ALIASED = FRESH FOR THE METADATA of every complete binary operation of the model (ckks Add/Sub, Mul, MulRelin;
+    bgv Mul, MulRelin, MulScaleInvariant, MulRelinScaleInvariant, Add/Sub with scale matching), every pattern. -/
+theorem alias_sound_meta (I : Interp α) (hcopy : ∀ x, I.fn .copy [x] = x) (op : Op) (hb : op.isBinary = true)
+    (al : Alias) (σ : Store α) (f : Nat) (hf : f ∈ metaFields) :
+    op.exec I al.pat σ (L al.pat.out f) = metaF I σ al.pat f := Op.exec_meta_alias_sound I hcopy op hb al σ f hf
+
+example : Op.ckksMulRelin.isBinary = true ∧ fCols ∈ metaFields := by decide
+
+/-- the statement is not vacuous: initialising `opOut.LogDimensions = op0.LogDimensions` first and taking the maximum
+    with op1 afterwards (seeded regression C09-r3m3; never the code of /repo) is NOT alias-sound for `out = op1`. -/
+theorem meta_overwrite_first_counterexample :
+    ∃ σ : Store Int, run intI (initBinaryMetaOverwriteFirst Alias.outOp1.pat) σ (L 1 fCols) ≠
+      metaF intI σ Alias.outOp1.pat fCols := initBinaryMetaOverwriteFirst_counterexample
+
 /-! ### degrees 0/1/2 -/
 
 /-- ckks.Add / ckks.Sub with an element operand: EVERY aliasing pattern, EVERY degree ≤ 2 of op0, op1 and of the
@@ -404,6 +440,9 @@ open Lattigo.Props.C09 in
 #print axioms Lattigo.Props.C09.alias_sound_rlwe_partialTracesSum
 #print axioms Lattigo.Props.C09.history_free_rlwe_partialTracesSum
 #print axioms Lattigo.Props.C09.alias_sound_rlwe_partialTracesSum_partial
+#print axioms Lattigo.Props.C09.alias_sound_meta_init
+#print axioms Lattigo.Props.C09.alias_sound_meta
+#print axioms Lattigo.Props.C09.meta_overwrite_first_counterexample
 #print axioms Lattigo.Props.C09.alias_sound_ckks_addSub_degrees
 #print axioms Lattigo.Props.C09.alias_sound_tensor_degrees
 #print axioms Lattigo.Props.C09.tensor_degrees_rejected
